@@ -36,9 +36,13 @@ type c16Session struct {
 	Cut2     int  // second cut: message index on the connection after CutConn; -1 = none
 	After    bool // cut right after forwarding the message instead of before it
 	Silent   bool // instead of closing, the peer goes silent at that message (client built with the inactivity check)
+	Leader   int  // >0: leader-only session with two servers; leadership moves at step boundary Leader (and back Cut2 steps later if Cut2>=0); Away bit 0 = endpoint order
 }
 
 func (s c16Session) String() string {
+	if s.Leader > 0 {
+		return fmt.Sprintf("method=%s monitors=%d leader-only client, two servers (endpoint order %d); leadership moves at step boundary %d, back %d steps later (-1 = never)", s.Method, s.Monitors, s.Away&1, s.Leader, s.Cut2)
+	}
 	if s.Silent {
 		return fmt.Sprintf("method=%s monitors=%d away=%03b peer silent from conn%d/msg%d on (inactivity probe)", s.Method, s.Monitors, s.Away, s.CutConn, s.Cut)
 	}
@@ -69,6 +73,10 @@ func c16Script() (setup []rm.Op, t1, t2 []rm.Op, marker rm.Op, away [][]rm.Op) {
 }
 
 func c16Run(r *ev.Run, s c16Session, record bool) (msgs []e2e.Msg) {
+	if s.Leader > 0 {
+		c16LeaderRun(r, s)
+		return nil
+	}
 	dbs := srefDB(false)
 	ref := rm.FromOvsdb(dbs.Schema)
 	setup, t1, t2, marker, away := c16Script()
@@ -630,6 +638,29 @@ func runC16(r *ev.Run) {
 			}
 		}
 	}
+	// leader-only client against two servers: leadership moves at every step boundary
+	nLeader := 0
+	for _, m := range methods[:3] {
+		for nm := 1; nm <= 2; nm++ {
+			for pos := 1; pos <= 6; pos++ {
+				if pos == 3 && nm == 1 {
+					continue
+				}
+				for order := 0; order < 2; order++ {
+					if r.Tier != "thorough" && (pos+order+nm)%2 == 0 {
+						continue
+					}
+					sessions = append(sessions, c16Session{Method: m, Monitors: nm, Away: order, Cut: -1, Cut2: -1, Leader: pos})
+					nLeader++
+					if r.Tier == "thorough" || pos == 2 {
+						sessions = append(sessions, c16Session{Method: m, Monitors: nm, Away: order, Cut: -1, Cut2: 2, Leader: pos})
+						nLeader++
+					}
+				}
+			}
+		}
+	}
+	r.Set("leader_sessions", nLeader)
 	r.Set("cut_points", boundaries)
 	r.Set("sessions", len(sessions))
 	data := filepath.Join(os.TempDir(), fmt.Sprintf("vc-c16-%d.json", os.Getpid()))
